@@ -178,7 +178,7 @@ func scenario(c cfg) *mcx.Scenario {
 func main() {
 	r := ev.Start("C18", "model_checking")
 	var scs []*mcx.Scenario
-	d := ev.Pick(r, 6, 7)
+	d := ev.Pick(r, 6, 8)
 	scs = append(scs, scenario(cfg{Depth: d + 1}))
 	for _, n := range []uint32{0, 1, 2, 3} {
 		scs = append(scs, scenario(cfg{KeepAlive: true, MaxRetries: n, Depth: d}))
